@@ -221,3 +221,11 @@ def r15d(ctx, repo, T):
     for c in tests:
         t = T.type_at(c.left, fi, c)
         ctx.check(t is not None and t == ("B", "str") or (isinstance(c.left, ast.Attribute) and c.left.attr == "name"), "R15d", fi, enclosing_stmt(c), "population filter compares names", "the population filter `%s` does not compare a population *name* with the requested names" % ast.unparse(c))
+
+
+def thorough(ctx):
+    from . import sweeps
+
+    T, cg, E = engines(ctx.repo)
+    sweeps.effect_overview(ctx, ctx.repo, E)
+    sweeps.discretisation_sweep(ctx, ctx.repo, "R15b")
